@@ -112,9 +112,18 @@ def gen_tasks(ctx, rng, n_cfg, n_beh, make_groups, maxcalls, faults, hyper_keys,
     def sim(i):
         behs, res = behaviours.simulate(abstracts[i], maxcalls, max(3, n_beh), ctx.seed * 1000 + i, faults=faults,
                                         moves=move_sets[i], tag=f"{ctx.prop}-sim", ckpt=ckpt)
+        sims.append(res)
         return behs
+    sims = []
     with ThreadPoolExecutor(max_workers=12) as ex:
         all_behs = list(ex.map(sim, range(n_cfg)))
+    if sims:          # TLC's own counts for the behaviour generation (simulation mode: states generated along the sampled behaviours)
+        ctx.add("states", sum(r.distinct for r in sims))
+        ctx.add("transitions", sum(r.generated for r in sims))
+        ctx.coverage.setdefault("tlc_runs", []).append({"name": f"ShampooOpt -simulate, {len(sims)} configurations x >= {n_beh} behaviours of {maxcalls} actions"
+                                                        + (" (Save/Load enabled)" if ckpt else ""),
+                                                        "distinct": sum(r.distinct for r in sims), "generated": sum(r.generated for r in sims),
+                                                        "depth": maxcalls, "wall_s": round(sum(r.wall_s for r in sims), 2)})
     tasks = []
     for d, behs in zip(draws, all_behs):
         rng.shuffle(behs)
